@@ -5,6 +5,7 @@ import (
 	"go/constant"
 	"go/token"
 	"go/types"
+	"strings"
 )
 
 func init() { register("C19", checkC19) }
@@ -13,6 +14,29 @@ const poolRel = "internal/smtpconn/pool"
 
 // timeWorld evaluates conditions over time stamps in a model world: stamps = 1000, now = 1000 + age, every
 // configured duration/limit = 100. time.Time values are modelled as seconds.
+// timeWorldProg gives the evaluator access to function bodies (set by the checks that use it).
+var timeWorldProg *Prog
+
+// singleReturnExpr: call resolves to a function of the same package (same types.Info) whose body is one return
+// statement with one result; that result, else nil.
+func singleReturnExpr(p *Prog, info *types.Info, call *ast.CallExpr) ast.Expr {
+	if p == nil {
+		return nil
+	}
+	fn := callee(info, call)
+	if fn == nil {
+		return nil
+	}
+	d := p.DeclOf(fn)
+	if d == nil || d.Decl.Body == nil || d.Info() != info || len(d.Decl.Body.List) != 1 {
+		return nil
+	}
+	if rs, ok := d.Decl.Body.List[0].(*ast.ReturnStmt); ok && len(rs.Results) == 1 {
+		return rs.Results[0]
+	}
+	return nil
+}
+
 func timeWorldEval(info *types.Info, cond ast.Expr, age int64) (bool, bool) {
 	var lookup func(e ast.Expr) (constant.Value, bool)
 	ev := func(e ast.Expr) (constant.Value, bool) { return evalExpr(info, e, lookup) }
@@ -52,6 +76,10 @@ func timeWorldEval(info *types.Info, cond ast.Expr, age int64) (bool, bool) {
 					return constant.MakeBool(constant.Compare(a, op, b)), true
 				}
 			default:
+				// a one-line predicate of the package (`func (p *P) keyIsFresh(b slot) bool { return … }`): its expression
+				if re := singleReturnExpr(timeWorldProg, info, x); re != nil {
+					return ev(re)
+				}
 				// stamp getters (LastUseAt() and the like): methods returning time.Time / int64 named *Use*
 				if m := methodName(x); m != "" && len(x.Args) == 0 && (containsFold(m, "lastuse") || containsFold(m, "stamp")) {
 					return constant.MakeInt64(1000), true
@@ -108,6 +136,7 @@ func bytesContains(a, b []byte) bool {
 
 func checkC19(c *Check) {
 	p := c.P
+	timeWorldProg = p
 	c.explain = "C19 (pooled connection used by one delivery at a time, closed once): lockset rule for the key table and for sends/closes of bucket channels; every connection received from a bucket is, on all paths, either handed to the caller or closed (never both, never neither), drains close every element; " +
 		"the hand-out is dominated by the usability test and by a lifetime test whose direction is evaluated in a 'fresh' and a 'stale' model world; a bucket is unlinked from the table in the critical section that closes it and is only (re)inserted in the critical section that read or created it; shutdown sets the marker Return tests, under the same lock; the remote target is the only user."
 	c.notCover = "liveness (eventually closed), fairness, blocking; the interleaving space is not explored."
@@ -143,19 +172,24 @@ func checkC19(c *Check) {
 	}
 	var funcs []*FuncInfo
 	p.AllFuncs([]*packagesPkg{pk}, func(fi *FuncInfo) {
-		sig := fi.Obj.Type().(*types.Signature)
-		if sig.Recv() != nil && namedOf(sig.Recv().Type()) == pT {
-			funcs = append(funcs, fi)
-			c.SawFunc(fi.Name())
+		if strings.HasSuffix(p.Fset.Position(fi.Decl.Pos()).Filename, "_test.go") {
+			return
 		}
+		funcs = append(funcs, fi)
+		c.SawFunc(fi.Name())
 	})
+	// a bucket channel: any expression (field, parameter, local) whose type is a channel of connections
 	isBucketChan := func(e ast.Expr) bool {
-		fv := fieldOf(info, e)
-		if fv == nil {
+		tv, ok := info.Types[e]
+		if !ok || tv.Type == nil {
 			return false
 		}
-		_, isChan := fv.Type().Underlying().(*types.Chan)
-		return isChan && fv.Name() != "cleanupStop"
+		ch, isChan := tv.Type.Underlying().(*types.Chan)
+		if !isChan {
+			return false
+		}
+		nt := namedOf(ch.Elem())
+		return nt != nil && nt.Obj().Name() == "Conn" && nt.Obj().Pkg() == pk.Types
 	}
 
 	// ---- R1
@@ -165,17 +199,17 @@ func checkC19(c *Check) {
 			switch x := n.(type) {
 			case *ast.SelectorExpr:
 				if fieldOf(info, x) == keysF {
-					held := locksHeldAt(p, fi, x.Pos())
+					held := locksHeldAtIP(p, fi, x.Pos())
 					c.Hold("R1", fi.Name()+":keys", x.Pos(), held[lockF], "the key table is accessed without holding the mutex")
 				}
 			case *ast.SendStmt:
 				if isBucketChan(x.Chan) {
-					held := locksHeldAt(p, fi, x.Pos())
+					held := locksHeldAtIP(p, fi, x.Pos())
 					c.Hold("R1", fi.Name()+":send", x.Pos(), held[lockF], "a connection is put into a bucket without holding the mutex (it can race with the close of that bucket: send on closed channel)")
 				}
 			case *ast.CallExpr:
 				if id, ok := x.Fun.(*ast.Ident); ok && id.Name == "close" && len(x.Args) == 1 && isBucketChan(x.Args[0]) {
-					held := locksHeldAt(p, fi, x.Pos())
+					held := locksHeldAtIP(p, fi, x.Pos())
 					c.Hold("R1", fi.Name()+":close", x.Pos(), held[lockF], "a bucket channel is closed without holding the mutex")
 				}
 			}
@@ -256,6 +290,60 @@ func checkC19(c *Check) {
 			c.Hold("R2", fi.Name()+":drain", rs.Pos(), msg == "", msg)
 			return true
 		})
+		// a closed bucket is drained: every path from close(X) to the function's exit passes a range over X or a call of
+		// a package function that ranges over the parameter X is bound to
+		rangeX := map[token.Pos]bool{}
+		for _, rs := range rangesIn(fi.Decl.Body, func(rs *ast.RangeStmt) bool { return isBucketChan(rs.X) }) {
+			rangeX[rs.X.Pos()] = true
+		}
+		drainsParam := func(call *ast.CallExpr, argIdx int) bool {
+			fn := callee(info, call)
+			if fn == nil {
+				return false
+			}
+			d := p.DeclOf(fn)
+			if d == nil || d.Decl.Body == nil || d.Info() != info {
+				return false
+			}
+			var pobjs []types.Object
+			for _, f := range d.Decl.Type.Params.List {
+				for _, nm := range f.Names {
+					pobjs = append(pobjs, info.Defs[nm])
+				}
+			}
+			if argIdx >= len(pobjs) {
+				return false
+			}
+			found := false
+			for range rangesIn(d.Decl.Body, func(rs *ast.RangeStmt) bool { return objOf(info, rs.X) == pobjs[argIdx] && pobjs[argIdx] != nil }) {
+				found = true
+			}
+			return found
+		}
+		for _, pt := range r.F.Points() {
+			for _, call := range callsAt(pt.Node()) {
+				id, ok := call.Fun.(*ast.Ident)
+				if !ok || id.Name != "close" || len(call.Args) != 1 || !isBucketChan(call.Args[0]) {
+					continue
+				}
+				what := exprStr(call.Args[0])
+				drains := func(q Pt) bool {
+					if e, ok := q.Node().(ast.Expr); ok && rangeX[e.Pos()] && exprStr(e) == what {
+						return true
+					}
+					for _, c2 := range callsAt(q.Node()) {
+						for ai, a := range c2.Args {
+							if exprStr(a) == what && drainsParam(c2, ai) {
+								return true
+							}
+						}
+					}
+					return false
+				}
+				path, f := r.F.Reach(Query{From: []Pt{pt}, Target: r.F.IsExitPt, Avoid: drains})
+				c.Hold("R2", fi.Name()+":close-then-drain:"+what, call.Pos(), !f, "a bucket is closed but the connections queued in it are not closed on every path: "+r.F.Describe(path))
+			}
+		}
 		// receive in select / assignment
 		for _, pt := range r.F.Points() {
 			var v types.Object
@@ -435,14 +523,23 @@ func checkC19(c *Check) {
 				continue
 			}
 			mentionsBucketStamp := false
-			ast.Inspect(cond, func(n ast.Node) bool {
-				if s, ok := n.(*ast.SelectorExpr); ok {
-					if fv := fieldOf(info, s); fv != nil && containsFold(fv.Name(), "lastuse") {
-						mentionsBucketStamp = true
+			var scan func(e ast.Node, depth int)
+			scan = func(e ast.Node, depth int) {
+				ast.Inspect(e, func(n ast.Node) bool {
+					switch s := n.(type) {
+					case *ast.SelectorExpr:
+						if fv := fieldOf(info, s); fv != nil && containsFold(fv.Name(), "lastuse") {
+							mentionsBucketStamp = true
+						}
+					case *ast.CallExpr:
+						if re := singleReturnExpr(p, info, s); re != nil && depth < 2 {
+							scan(re, depth+1)
+						}
 					}
-				}
-				return true
-			})
+					return true
+				})
+			}
+			scan(cond, 0)
 			if !mentionsBucketStamp {
 				continue
 			}
